@@ -395,19 +395,19 @@ fn validate_fields(input: &Struct, data_type_attrs: &DataTypeAttrs, data_type_at
         }
     }
 
-    for child_attr in input.fields.iter().flat_map(|x| &x.attrs.child_attrs) {
-        match &child_attr.container_ty {
-            Some(tp) => {
-                if !type_paths.contains(tp) {
-                    errors.insert(format!("Type '{}' doesn't match any type specified in trait instructions.", tp.path_str), tp.span);
-                }
-                if into_type_paths.contains(tp) {
-                    check_child_errors(child_attr, data_type_attrs, tp, errors)
-                }
-            },
-            None => for tp in into_type_paths.iter() {
+    for field in &input.fields {
+        for tp in field.attrs.child_attrs.iter().filter_map(|x| x.container_ty.as_ref()) {
+            if !type_paths.contains(tp) {
+                errors.insert(format!("Type '{}' doesn't match any type specified in trait instructions.", tp.path_str), tp.span);
+            }
+        }
+
+        // What counts for a counterpart is the #[child] instruction its conversions select (the one dedicated to it before the
+        // default one), not every #[child] instruction the member carries
+        for tp in into_type_paths.iter() {
+            if let Some(child_attr) = field.attrs.child(tp) {
                 check_child_errors(child_attr, data_type_attrs, tp, errors)
-            },
+            }
         }
     }
 
